@@ -2652,6 +2652,16 @@ impl Collection {
         let _operation_lease = self.mutation_lease().await?;
         let guard = self.cancel_guard("Collection::cleanup_removed_index");
         let rt = async {
+            // Same ordering rule as `flush_inner`: the metadata written below
+            // is the durable pointer to the whole index set, so an index
+            // created earlier on this handle (typically in the same open
+            // callback) must have its backfilled objects durable first.
+            // Publishing it while they are still empty would let a crash
+            // before the next flush leave a registered, empty index that
+            // nothing ever re-backfills.
+            if self.has_pending_index_flush() {
+                self.store_indexes(unix_ms()).await?;
+            }
             self.store_metadata_unclaimed().await?;
             if let Err(err) = self.storage.drop_prefix(dir_path).await {
                 log::warn!(
